@@ -187,6 +187,52 @@ def refused_handover_leg(c, wd):
     sys.modules.pop(mod.__name__, None)
 
 
+RECURSION_HOST = '''
+def fact(n):
+    if n <= 1:
+        return 1
+    return n * fact(n - 1)
+'''
+
+
+def recursion_capture_leg(c, wd):
+    """A captured result is the value returned by THAT invocation - under recursion. (a) every level opens a deferred
+    snapshot (fire_count -1): each carries its own level's result. (b) only the outermost invocation opens one
+    (fire_count 1): it carries the outermost result - not that of the first inner invocation to return."""
+    import sys
+    from .. import rig as R
+    mod, path, marks = R.write_host(wd, RECURSION_HOST)
+    base = path.rsplit('/', 1)[-1]
+    for label, count, want in (('every level opens', '-1', ['1', '2', '6']), ('only the outermost opens', '1', ['6'])):
+        plugin = R.role_plugin('rec', {'span'})
+        rg = R.Rig(plugins=[plugin])
+        try:
+            rg.install([dict(id='t-cap', path=base, line=0, args={'fire_count': count, 'fire_period': '0',
+                                                                   'stage': 'method_capture', 'method_name': 'fact'}),
+                        dict(id='t-span', path=base, line=0, args={'fire_count': count, 'fire_period': '0', 'span': 'method',
+                                                                    'method_name': 'fact', 'snapshot': 'no_collect'})])
+            res = rg.run(mod.fact, 3, only_file=path)
+            got = sorted(s_.var_lookup[w.result.vid].value for s_ in rg.snapshots() for w in s_.watches
+                         if w.source == 'CAPTURE' and w.result is not None and w.expression == 'return')
+            spans = sorted(s_.closed for s_ in plugin.spans)
+            bad = None
+            if res != ('ok', 6) or rg.escaped:
+                bad = 'host changed / handler raised: %r %r' % (res, rg.escaped)
+            elif got != sorted(want):
+                bad = 'captured return values %s, the invocations returned %s' % (got, sorted(want))
+            elif spans != [1] * len(want):
+                bad = 'spans closed %s times each' % spans
+        finally:
+            rg.close()
+        c.traces_validated += 1
+        c.note_case(key=('recursion-capture', label), nontrivial=True)
+        if bad:
+            p_ = c.save_replay({'kind': 'recursion-capture', 'case': label, 'what': bad})
+            c.violation('method capture on a recursive function (%s): %s' % (label, bad), p_,
+                        signature={'capture': 'nested-same-name'} if count == '1' else None)
+    sys.modules.pop(mod.__name__, None)
+
+
 def second_agent_leg(c, wd):
     """What one agent has pending for a thread is that agent's: while a spanned / captured function is running, a SECOND
     agent comes and goes on the same thread (a library that starts its own agent lazily; a test fixture) - constructed
@@ -284,6 +330,7 @@ def run(c):
                                                [[('a.f', [('call', 'a.g', [('line',)]), ('try', 'a.g', [('raise',)])])]])])
     c03.validate(c, traces, meta, lambda m: m['closes'] >= 1)
     c.extra['captures_completed'] = sum(m['closes'] for m in meta)
+    recursion_capture_leg(c, wd)
     second_agent_leg(c, wd)
     refused_handover_leg(c, wd)
     line_level_leg(c, wd, 1 if quick else 2, 700 if quick else 6000)     # (700: every schedule with one forced switch)
